@@ -12,8 +12,9 @@ struct argstr { size_t n; };
 /* std::stol(str, end, 10) (trusted: [string.conversions]): value and characters consumed; std::invalid_argument when no
    conversion can be performed, std::out_of_range when the value does not fit a long */
 static struct { long value; size_t end; _Bool out_of_range, invalid; } STOL;
-static long stol_model(const struct argstr *s, size_t *end)
+static long stol_model(const struct argstr *s, size_t *end, int base)
 {
+  __CPROVER_assert(base == 10, "C16: a drive number is read as decimal (std::stol base 10: a leading zero does not make it octal)");
   __CPROVER_assume(STOL.end <= s->n && (STOL.end == 0) == STOL.invalid);
   if (STOL.invalid) { VERIF_THROW(std_invalid_argument, 0); return 0; }
   if (STOL.out_of_range) { VERIF_THROW(std_out_of_range, 0); return 0; }
